@@ -20,8 +20,8 @@ func Run(r *corr.Run) {
 	}
 	c := &cases{r: r, w: w, slots: map[string]int{}, byWire: map[string]*rawValue{}, tsSeq: 1_000_000}
 	defer func() {
-		if c.env != nil {
-			c.env.close()
+		for _, e := range c.envs {
+			e.close()
 		}
 	}()
 	r.SetRule("a case counts when at least two values competed for one slot or an unacceptable value / storage fault / exchange was part of it")
@@ -32,6 +32,7 @@ func Run(r *corr.Run) {
 	c.genFaultSweep()
 	c.genPermutations()
 	c.genExchangeFixed()
+	c.genExchangeBig()
 	c.genBigRepeat()
 	for i := 0; r.TimeLeft(); i++ {
 		switch i % 4 {
@@ -523,6 +524,30 @@ func (c *cases) genExchangeFixed() {
 		c.exchange(b, a) // a second exchange in the other direction must change nothing
 		c.r.Case(trace(a), true)
 		c.r.Count("gen.exchange." + sh.name)
+	}
+}
+
+// pulls / pushes larger than one apply batch (applyBatchSize = 100): 100, 101, 230 values
+func (c *cases) genExchangeBig() {
+	for _, n := range []int{100, 101, 230} {
+		var batch []*rawValue
+		for i := 0; i < n; i++ {
+			batch = append(batch, c.randomAcceptable(fmt.Sprintf("big%d", i), c.w.devices[i%len(c.w.devices)], c.nextTs()))
+		}
+		for _, pull := range []bool{true, false} {
+			a, b := c.newSut(c.dev("o", 0)), c.newSut(c.dev("w", 0))
+			older := c.randomAcceptable("big0", c.w.devices[0], batch[0].ts-500000)
+			if pull {
+				c.raw(b, "raw", fault{}, batch)
+				c.raw(a, "raw", fault{}, []*rawValue{older})
+			} else {
+				c.raw(a, "raw", fault{}, batch)
+				c.raw(b, "raw", fault{}, []*rawValue{older})
+			}
+			c.exchange(a, b)
+			c.r.Case(trace(a), true)
+			c.r.Count("gen.exchange.big")
+		}
 	}
 }
 
